@@ -382,9 +382,11 @@ BLD_CHAINS = ["l", "u", "l,u", "b1", "b2", "v,l", "l,b2,u", "u,v", "b2,l", "l,l"
 def bld_cases(ctx, n, flags_choices, ws=(1, 2, 3), ls=(1, 2, 3), lens=(8, 14, 20)):
     reqs = []
     for _ in range(n):
+        fl = ctx.rng.choice(flags_choices)
+        # K (a service call that panics) needs the plain-Tokio start-up: only there the worker threads carry their index in their name
         reqs.append("seed=%d;W=%d;L=%d;B=%s;S=%s;len=%d;flags=%s" % (
             ctx.rng.randrange(10 ** 9), ctx.rng.choice(ws), ctx.rng.choice(ls), ctx.rng.choice(BLD_CHAINS),
-            ctx.rng.choice("at"), ctx.rng.choice(lens), ctx.rng.choice(flags_choices)))
+            "t" if "k" in fl else ctx.rng.choice("at"), ctx.rng.choice(lens), fl))
     p = subprocess.run([DRIVER, "bldgen"], input="\n".join(reqs) + "\n", stdout=subprocess.PIPE, text=True, timeout=600)
     raw = [l for l in p.stdout.split("\n") if l]
     assert len(raw) == len(reqs) and not any(l.startswith("DRIVER_ERROR") for l in raw), "bldgen failed: %s" % raw[:2]
@@ -427,6 +429,8 @@ def bld_parse_trace(trace):
         served = []
         for it in m.group(2).split(","):
             if it:
+                if it.startswith("x@") or it.endswith("@drop"):
+                    continue
                 mm = re.match(r"^(\d+)@(-?\d+)w(\d+)$", it)
                 if not mm:
                     return None
@@ -449,15 +453,23 @@ def bld_pred(which):
         paused = False
         backoff = False
         rr_prev = None
+        faulted = False
         for k, (op, served, act, notes) in enumerate(steps):
             if notes:
                 # '!' notes: a service call that did not start/end within 30 s, an unacknowledged command, a connect error, a second
                 # delivery of one connection, a server that does not stop
                 if "C01" in which or "did-not-start" in notes and ("C03" in which or "C05" in which) or "C05" in which and ("pause" in notes or "resume" in notes):
                     return "step %d (%s): %s" % (k, op or "end", notes)
+            if notes and "C08" in which:
+                return "step %d (%s): %s" % (k, op or "end", notes)
             if not op:
                 continue
-            if op[0] in "cE":
+            if op[0] == "K":
+                cid += 1
+                faulted = True
+                tok_of[cid] = int(op[1:])
+                served_at[cid] = k      # its service call panicked
+            elif op[0] in "cE":
                 cid += 1
                 tok_of[cid] = int(op[1:])
                 if op[0] == "E":
@@ -484,6 +496,8 @@ def bld_pred(which):
                 served_at.setdefault(c, k)
                 if "C05" in which and paused and op != "R":
                     return "step %d (%s): connection %d dispatched while the server was paused" % (k, op, c)
+            if faulted:
+                continue       # C02/C03/C04 speak about runs without a worker fault
             if "C02" in which and any(a > L for a in act):
                 return "step %d (%s): in progress per worker %s, limit %d" % (k, op, act, L)
             pending = [c for c in tok_of if c not in served_at]
@@ -517,7 +531,7 @@ def bld_stream(ctx, which, flags_choices, n_quick, n_thorough, **kw):
     def nontrivial(c, m):
         st = bld_parse_trace(m) or []
         W, L, _, _ = bld_parse_case(c)
-        return any(a >= L for (_, _, act, _) in st for a in act) or any(op in ("P",) or op[:1] == "E" for (op, _, _, _) in st)
+        return any(a >= L for (_, _, act, _) in st for a in act) or any(op in ("P",) or op[:1] in ("E", "K") for (op, _, _, _) in st)
 
     def shrink(case):
         head = case.split(";exp=")[0]
